@@ -101,6 +101,14 @@ CLAIMS = {
          'error; with C11_dispatch an UNDEFINED outcome becomes the architectural exception.',
          'Partial: totality of from_bitarray and of the ~270 execute() bodies is not a theorem; it is searched by whole-step runs '
          'over sampled words (all 2^16 Thumb halfwords in the thorough tier), which found and led to the repair of four crashes.'),
+
+ 'C20': ('isolation proved for the regenerated model: under every interleaving of the steps of any number of instances each '
+         'instance reaches exactly the state it reaches alone (determinism is by construction: a step is a function of the '
+         'instance configuration and state); the implementation is compared with that model and with its own solo runs on '
+         'interleaved multi-instance schedules.',
+         'The theorem is about the model; that the implementation has no hidden shared state is established only by the '
+         'correspondence runs. Known finding: the configuration is a process-wide singleton, so instances created with different '
+         'configuration files influence each other.'),
 }
 DESIGN_REF = {k: f'DESIGN.md 3 ({k})' for k in CLAIMS}
 
